@@ -37,6 +37,8 @@ def gen(rng, index, tier):
                        {'env': {'FLIPJUMP_MEASURE_SPECULATION': '1'}}, {'last_ops': rng.choice([1, 4])}])
     case['configs'] = [{'engine': 'native', 'probe': 'touched'}, {'engine': 'fast', 'probe': 'touched'},
                        {'engine': 'featured', 'probe': 'touched'}, dict({'engine': 'native', 'probe': 'touched'}, **knob)]
+    if rng.random() < 0.2:
+        case['configs'].append({'engine': 'featured', 'trace': True, 'probe': 'touched'})
     return case
 
 
